@@ -8,6 +8,7 @@ mod sync;
 mod pr;
 mod rg;
 mod fleet;
+mod wire;
 
 fn main() {
     let args: Vec<String> = std::env::args().collect();
@@ -26,6 +27,9 @@ fn main() {
         "rg-hist" => rg::hist(&a),
         "fleet-scripts" => fleet::scripts(&a),
         "fleet-broadcast" => fleet::broadcast(&a),
+        "wire-exec" => wire::exec(&a),
+        "wire-child" => wire::child(&a),
+        "wire-c01" => wire::c01(&a),
         other => {
             eprintln!("unknown engine {other}");
             2
